@@ -104,6 +104,14 @@ AsciiLen(t, i) == IF i > Len(t) THEN 0
                   ELSE IF t[i] >= 128 THEN 2 + AsciiLen(t, i + 1) ELSE 1 + AsciiLen(t, i + 1)
 MaxCap(shape, mn, mx) == LET ok == {i \in 1..NSizes : Admissible(i, shape, mn, mx)} IN
                          IF ok = {} THEN 0 ELSE NData(T7[CHOOSE i \in ok : \A j \in ok : NData(T7[i]) >= NData(T7[j])])
+\* a second valid encodation of any text: ONE Base 256 run (5.2.9): latch, length field, the bytes.  The length field is one codeword
+\* for runs up to 249 bytes - and for a run of any length that ends exactly at the end of the symbol (length codeword 0) -, else two
+B256Len(t, shape, mn, mx) ==
+  LET n == Len(t)
+      exact == \E i \in 1..NSizes : Admissible(i, shape, mn, mx) /\ NData(T7[i]) = n + 2
+  IN IF n <= 249 \/ exact THEN n + 2 ELSE n + 3
+Extended(t) == Len(t) > 0 /\ \A i \in 1..Len(t) : t[i] \in 128..255
+Min2(a, b) == IF a < b THEN a ELSE b
 Latin1(t) == \A i \in 1..Len(t) : t[i] \in 0..255
 B(x) == IF x THEN 1 ELSE 0
 
@@ -111,12 +119,19 @@ B(x) == IF x THEN 1 ELSE 0
 HLCheck(e) ==
   LET t == e.text
       okRun == e.panic = 0 /\ e.hang = 0
-      mustFit == Len(t) > 0 /\ Latin1(t) /\ AsciiLen(t, 1) <= MaxCap(e.shape, e.mn, e.mx)
+      \* sufficient for "fits": the plain ASCII encodation fits, or (texts of extended characters only, where every encoder runs
+      \* Base 256 from the first character) the single Base 256 run does
+      mustFit == Len(t) > 0 /\ Latin1(t) /\ (\/ AsciiLen(t, 1) <= MaxCap(e.shape, e.mn, e.mx)
+                                             \/ (Extended(t) /\ B256Len(t, e.shape, e.mn, e.mx) <= MaxCap(e.shape, e.mn, e.mx)))
       okRefusal == IF e.cwerr = 1 THEN ~mustFit ELSE Latin1(t) /\ Len(t) > 0
       d == IF e.cwerr = 0 /\ (\A k \in 1..Len(e.cw) : e.cw[k] \in 0..255) THEN Decode(e.cw) ELSE [text |-> <<>>, err |-> TRUE, pad |-> 0]
       used == IF d.pad = 0 THEN Len(e.cw) ELSE d.pad - 1
       i == IF e.cwerr = 0 THEN Lookup(used, e.shape, e.mn, e.mx) ELSE 0
-      okCw == e.cwerr = 1 \/ (~d.err /\ d.text = t /\ PadsOK(e.cw, d.pad) /\ i # 0 /\ Len(e.cw) = NData(T7[i]))
+      \* a text of extended characters only is one Base 256 run: its symbol is the smallest admissible one that holds that run
+      \* (5.2.9 length field rule; a run that fills a symbol exactly uses the one-codeword "to the end" form)
+      iB == IF Extended(t) THEN Lookup(Min2(B256Len(t, e.shape, e.mn, e.mx), 2 * Len(t)), e.shape, e.mn, e.mx) ELSE 0
+      okCw == e.cwerr = 1 \/ (/\ ~d.err /\ d.text = t /\ PadsOK(e.cw, d.pad) /\ i # 0 /\ Len(e.cw) = NData(T7[i])
+                              /\ (iB # 0 => NData(T7[i]) <= NData(T7[iB])))
       okDec == e.cwerr = 1 \/ (e.derr = "" /\ e.dtext = e.utf8)
       okImg == Len(e.img) # 2 \/ (IF e.cwerr = 1 THEN e.werr = 1
                                    ELSE /\ e.werr = 0 /\ e.rerr = "" /\ e.rtext = e.utf8 /\ e.rfmt = 1
